@@ -418,9 +418,75 @@ def check_scanner(case: dict[str, Any]) -> list[tuple[str, str]]:
     return []
 
 
+def check_backlog(case: dict[str, Any]) -> list[tuple[str, str]]:
+    """A long, fast scan (thousands of exchanges, the database writer lags behind) that is cancelled right after the reply of
+    exchange k has been received: every request that was put on the wire has its row."""
+    from datetime import UTC, datetime
+
+    from gallia.command.base import BaseCommandConfig
+    from gallia.db.handler import DBHandler
+    from gallia.services.uds.core import service
+    from gallia.services.uds.ecu import ECU
+
+    n, k = case["n"], case["cancel_after"]
+    d = Path(tempfile.mkdtemp(prefix="vf-c11b."))
+    written: list[str] = []
+    try:
+        async def go() -> None:
+            db = DBHandler(d / "db.sqlite")
+            await db.connect()
+            await db.insert_run_meta("vf.c11", BaseCommandConfig(), datetime.now(UTC).astimezone(), None)
+            await db.insert_scan_run("tcp-lines://192.0.2.9:1")
+            box: dict[str, Any] = {}
+
+            class Fast(HistTransport):
+                async def write(self, data: bytes, timeout: float | None = None, tags: list[str] | None = None) -> int:
+                    written.append(bytes(data).hex())
+                    return len(data)
+
+                async def read(self, timeout: float | None = None, tags: list[str] | None = None) -> bytes:
+                    await asyncio.sleep(0)
+                    req = bytes.fromhex(written[-1])
+                    if len(written) == k:
+                        box["task"].cancel()  # takes effect at the next point where the scan has to wait
+                    return b"\x62" + req[1:3] + b"\x00"
+
+            ecu = ECU(Fast(), timeout=0.2, max_retry=0)  # type: ignore[arg-type]
+            ecu.db_handler = db
+
+            async def scan() -> None:
+                for i in range(n):
+                    await ecu.request(service.ReadDataByIdentifierRequest(i & 0xFFFF))
+
+            box["task"] = asyncio.create_task(scan())
+            try:
+                await box["task"]
+            except asyncio.CancelledError:
+                pass
+            finally:
+                await db.disconnect()
+
+        try:
+            asyncio.run(go())
+        except Exception as e:  # noqa: BLE001
+            return [(f"C11/backlog/raises/{type(e).__name__}", f"{case}: {type(e).__name__}: {e}")]
+        con = sqlite3.connect(d / "db.sqlite")
+        rows = [r[0] for r in con.execute("SELECT request_pdu FROM scan_result ORDER BY id").fetchall()]
+        con.close()
+    finally:
+        shutil.rmtree(d, ignore_errors=True)
+    if rows != written:
+        missing = [w for w in written if w not in set(rows)]
+        return [("C11/backlog/" + ("row-missing-after-cancellation" if len(rows) < len(written) else "rows-differ"),
+                 f"{case}: {len(written)} requests were put on the wire, {len(rows)} rows; missing {missing[:4]}")]
+    return []
+
+
 def check(case: dict[str, Any]) -> list[tuple[str, str]]:
     if case.get("kind") == "scanner":
         return check_scanner(case)
+    if case.get("kind") == "backlog":
+        return check_backlog(case)
     d = Path(tempfile.mkdtemp(prefix="vf-c11."))
     try:
         try:
@@ -483,7 +549,8 @@ def nontrivial(case: dict[str, Any]) -> bool:
 
 
 def shards(tier: str) -> list[dict[str, Any]]:
-    return [{"n": 90 if tier == "quick" else 1500} for _ in range(14)] + [{"n": 40 if tier == "quick" else 800, "scanner": True} for _ in range(2)]
+    return [{"n": 90 if tier == "quick" else 1500} for _ in range(14)] + [{"n": 40 if tier == "quick" else 800, "scanner": True} for _ in range(2)] + \
+        [{"backlog": [2500] if tier == "quick" else [1500, 2500, 6000]}]
 
 
 def run_shard(spec: dict[str, Any], seed: int) -> Collector:
@@ -496,6 +563,14 @@ def run_shard(spec: dict[str, Any], seed: int) -> Collector:
 
     if spec.get("scanner"):
         run_given(scanner_case_s(), body_scanner, spec["n"], seed)
+        return col
+    if spec.get("backlog"):
+        for n in spec["backlog"]:
+            for k in (n - 1 - seed % 400, n // 2 + seed % 97):
+                case = {"kind": "backlog", "n": n, "cancel_after": k}
+                col.case(str(case), True, cls="backlog", sample=case)
+                for b, m in check(case):
+                    col.violation(b, case, m)
         return col
 
     def body(case: dict[str, Any]) -> None:
@@ -511,7 +586,7 @@ def run_shard(spec: dict[str, Any], seed: int) -> Collector:
 
 def replay(witness: Any) -> list[tuple[str, str]]:
     w = unjson(witness)
-    if w.get("kind") == "scanner":
+    if w.get("kind") in ("scanner", "backlog"):
         return check(w)
     for e in w["exchanges"]:
         if "special" in e["req"]:
